@@ -47,6 +47,9 @@ func Run(c *common.Ctx) error {
 	if err := dropRestartRecreate(c, c.Rng.Fork()); err != nil {
 		return err
 	}
+	if err := importDuringCommits(c, c.Rng.Fork()); err != nil {
+		return err
+	}
 	if err := sweepInsideCommit(c, c.Rng.Fork()); err != nil {
 		return err
 	}
